@@ -66,6 +66,9 @@ type history struct {
 	Uninterested  []int // items that are not interesting at the start
 	Template      string
 	Ops           []op
+	// SlackMs > 0 selects the tight deadline 4*ArriveTimeout + SlackMs (many-peers unit); runs whose canary
+	// overslept more than a quarter of the slack are not counted
+	SlackMs int `json:",omitempty"`
 }
 
 func (h history) arrive() time.Duration { return time.Duration(h.ArriveMs) * time.Millisecond }
@@ -74,7 +77,20 @@ func (h history) forget() time.Duration { return time.Duration(h.ForgetMult) * h
 // bound for "shortly"/"a small multiple of the arrive timeout": nominal <= ~2.2 A (re-fetch period plus
 // timer granularity); the timing policy asks for >= 10x nominal + 1 s only where nominal is tiny, here
 // 4 A + 1 s is far above 10x the scheduling-only nominal of the stop clauses and above the re-fetch period.
-func (h history) bound() time.Duration { return 4*h.arrive() + time.Second }
+func (h history) bound() time.Duration {
+	if h.SlackMs > 0 {
+		return 4*h.arrive() + time.Duration(h.SlackMs)*time.Millisecond
+	}
+	return 4*h.arrive() + time.Second
+}
+
+// tolerance is the canary oversleep above which a run of this history is not trusted.
+func (h history) tolerance() time.Duration {
+	if h.SlackMs > 0 {
+		return time.Duration(h.SlackMs) * time.Millisecond / 4
+	}
+	return canary.Tolerance
+}
 
 const markerBase = 1000
 const roundTripPeer = -1
@@ -809,7 +825,7 @@ func confirm(t *rapid.T, h history, idx int, v *verdict) confirmation {
 	for attempt := 0; attempt < 10 && refails < 3; attempt++ {
 		cn := canary.Start()
 		r := run(h)
-		over := cn.Stop() > canary.Tolerance
+		over := cn.Stop() > h.tolerance()
 		if r.safety != "" {
 			t.Fatalf("%s\nhistory %d: %s", r.safety, idx, describe(h, r))
 		}
